@@ -134,7 +134,7 @@ inductive Verdict where
   | short                                     -- "…: unexpected structure"
   | decodeErr                                 -- "failed to decode packet payload" (header; unreachable)
   | lengthMismatch                            -- "…: unexpected message length"
-  | syncLength                                -- "…: unexpected Sync message length" (unreachable)
+  | syncLength                                -- "…: unexpected Sync message length"
   | tlvDecode                                 -- "failed to decode packet payload" (request TLV)
   | tlvKind                                   -- "…: unexpected Follow Up message"
   | tlvLength                                 -- "…: unexpected Follow Up message length"
